@@ -11,6 +11,10 @@ import (
 // loopEnv evaluates invariants: names are the current contents of the local cells.
 func (fc *FnCtx) loopEnv(s *State, li *loopInfo) *Env {
 	names := map[string]Val{}
+	// ghost values bound so far (bind(g, e) at an earlier program point) can be named in invariants
+	for g, t := range s.ghosts {
+		names[g] = mathInt(t)
+	}
 	return &Env{fc: fc, names: names, cellsAt: s, heap: s.heap, oldNames: fc.entry, oldHeap: fc.oldHeap, pos: li.pos,
 		nalloc0: fc.nalloc0, nobj0: fc.nobj0}
 }
@@ -146,6 +150,7 @@ func (fc *FnCtx) enterLoop(s *State, li *loopInfo) *State {
 			fc.applyHint(s, env, h, fmt.Sprintf("loop %d entry", li.ordinal))
 		}
 	}
+	env = fc.loopEnv(s, li) // ghosts bound by the entry hints are visible to the invariants
 	for _, inv := range li.spec.Invs {
 		g := fc.evalSpecBool(env, inv.E)
 		fc.oblige(s, fmt.Sprintf("%s.loop%d.invariant[%s].entry", fc.key, li.ordinal, inv.Label), "invariant", inv.Props, inv.Text, g, fmt.Sprintf("loop %d entry", li.ordinal))
